@@ -54,7 +54,9 @@ def tokOk (toks : List TTok) (i : Nat) : Bool :=
   | _ => true
 
 /-- structural soundness of a text tape as far as the deserializer relies on it: every token is
-sound and the top-level fields can be walked.  Every parsed tape satisfies it (C06). -/
+sound and the top-level fields can be walked.  Every tape the text parser model accepts satisfies it:
+`wfT_of_parse` (Proofs/TextDeParsed.lean, from texttape's grammar of accepted tapes `C06_text_object_grammar`);
+the harness op `tde_wft` checks the same on the real parser's tapes. -/
 def WfT (toks : List TTok) : Bool :=
   (List.range toks.length).all (tokOk toks) && walkOk toks (toks.length + 1) 0 toks.length
 
